@@ -88,6 +88,12 @@ def make_ddf(gdf, parts, tag="in"):
     # names must be unique per object: dask-expr deduplicates expressions by name.
     # uuid4 is the run's seeded generator, so the same case gives the same names again
     run = uuid.uuid4().hex[:12]
+    # ... and unique per CONTENT: runs that share a sim seed (the C19 enumeration) draw the
+    # same uuids for different frames, and an expression of an earlier (crashed) run that
+    # is still referenced somewhere would be handed out again for the same name
+    import hashlib
+    what = hashlib.sha1(repr((models.frame_records(gdf), parts["splits"])).encode()).hexdigest()[:10]
+    run = f"{run}-{what}"
     ds = [dask.delayed(f, name=f"{tag}-{run}-part-{i}") for i, f in enumerate(frames)]
     return dd.from_delayed(ds, meta=gdf.iloc[:0], verify_meta=False)
 
